@@ -43,14 +43,21 @@ def _result(samples, state):
         key = jax.random.key_data(key)
     except Exception:  # noqa: BLE001
         pass
-    return (np.array(samples.pos), np.array(samples._samples), int(state.nit), np.array(key))
+    skeys = samples.keys
+    if skeys is not None:
+        try:
+            skeys = jax.random.key_data(skeys)
+        except Exception:  # noqa: BLE001
+            pass
+    return (np.array(samples.pos), np.array(samples._samples), int(state.nit), np.array(key), None if skeys is None else np.array(skeys))
 
 
 def _same(a, b):
     def bits(x, y):
         x, y = np.asarray(x), np.asarray(y)
         return x.shape == y.shape and x.tobytes() == y.tobytes()
-    return bits(a[0], b[0]) and bits(a[1], b[1]) and a[2] == b[2] and bits(a[3], b[3])
+    same_keys = (a[4] is None) == (b[4] is None) and (a[4] is None or bits(a[4], b[4]))
+    return bits(a[0], b[0]) and bits(a[1], b[1]) and a[2] == b[2] and bits(a[3], b[3]) and same_keys
 
 
 def h_resume(B, mode):
@@ -101,7 +108,7 @@ def h_resume(B, mode):
 
 
 def scenarios(tier, seed):
-    quick = [("resume", {"mode": "linear_resample"})]
+    quick = [("resume", {"mode": "linear_resample"}), ("resume", {"mode": "linear_sample"})]     # *_sample re-uses the keys of the samples
     thorough = [("resume", {"mode": "nonlinear_resample"}), ("resume", {"mode": "nonlinear_update"})]
     return quick if tier == "quick" else quick + thorough
 
@@ -112,10 +119,10 @@ OPTS = {"quick": {"max_paths": 200, "budget_s": 900, "jobs": 4, "branch_timeout_
 
 META = {
     "level": "other",
-    "explanation": "The real nifty.re.optimize_kl (3 iterations, 2 mirrored samples, MGVI quick / geoVI thorough, jit off) is killed at every "
+    "explanation": "The real nifty.re.optimize_kl (3 iterations, 2 mirrored samples, MGVI with fresh and with re-used sample keys quick / geoVI thorough, jit off) is killed at every "
                    "file-system mutation it performs (before the operation, after a create/truncate, right after a remove / replace; buffered data of open files is lost; the crash point is a symbolic "
                    "integer concretised by solver-decided forking), restarted with resume=True and compared with the uninterrupted run: "
-                   "bit-identical position and residuals, same iteration counter and PRNG key.  Concrete float64 runs: the solver "
+                   "bit-identical position, residuals and sample keys, same iteration counter and PRNG key.  Concrete float64 runs: the solver "
                    "explores the crash-point space.",
     "functions_encoded": ["nifty.re.optimize_kl.optimize_kl (state pickling and resume)", "nifty.re.optimize_kl.OptimizeVI.{init_state,update}"],
     "bounds": {"iterations": 3, "samples": "2 keys (4 mirrored samples)", "crash points": "before every open-for-write / remove / replace below odir, after every create/truncate, after every remove / replace; one crash per history"},
